@@ -1685,6 +1685,20 @@ fn gen_invalid(s: &mut Session) {
                 a.colptr[k] -= hi - lo;
             }
         }
+        if (kind == 2 || kind == 0) && s.rng.bool(0.5) {
+            // the same entries with the rows of each column in random order: the structural
+            // tests must not depend on the column being sorted (an entry below the diagonal
+            // need not be the last one stored)
+            for c in 0..a.n {
+                let (lo, hi) = (a.colptr[c], a.colptr[c + 1]);
+                for i in (lo + 1..hi).rev() {
+                    let j = lo + s.rng.below(i - lo + 1);
+                    a.rowval.swap(i, j);
+                    a.nzval.swap(i, j);
+                }
+            }
+            s.count("structure:unsorted-columns");
+        }
         s.submit(Line::new("qdldl.check_structure").csc("", &a).done());
         let perm = s.rng.perm(a.n);
         let o = Opts { enable: s.rng.bool(0.5), eps: 1e-12, delta: 1e-7, logical: false };
